@@ -71,7 +71,7 @@ type world struct {
 	gen       int
 }
 
-const watchdog = 15 * time.Second
+const watchdog = 60 * time.Second
 
 func logCount() int {
 	n, _ := strconv.Atoi(expvar.Get("log_count").String())
